@@ -20,6 +20,37 @@ CLAIMS = {
             "before the first). Tie to the code: bit-exact correspondence of the extracted model with "
             "ControlPoints::add/*_point_at on exhaustive small-alphabet and random histories, plus a linear-scan oracle.",
             "§6 C13"),
+    "C02": ("PARTIAL. Proved (coq/Properties/C02.v, under the number-formatting hypotheses fmt_ok): T02a - for every decoded "
+            "map the six simple sections read back from the rendered encoding as the carry of the map (general, editor, "
+            "metadata incl. positive ids, difficulty, background/breaks, colours); model-level vm_compute witnesses for the "
+            "recorded classes D12, D13, D17, D22 and a complete example round trip over all sections, control points and hit "
+            "objects. Stated but NOT mechanised: hit-object lines (T02b), path strings (T02c; convert_path_str = path_spec "
+            "is proved in C14 and is its base), timing points and sliders end to end (T02d/e) - these are covered by the "
+            "`enc` correspondence (decoder, curve, slider-event and encoder models composed, rendered with Rust's Display, "
+            "compared with encode_to_string byte for byte) and by the oracle. D2 and D16 were found by this package's "
+            "checks and repaired (4262585, d78b06a). Oracle: field-by-field comparison of decode(x) and "
+            "decode(encode(decode(x))) for exactly the items the property lists, timelines sampled at all control-point "
+            "times, curves per slider, on chronological generator files and mutated bundled maps.",
+            "§6 C02"),
+    "C03": ("Unbounded theorems (coq/Properties/C03.v, under fmt_ok): a boolean `representable` per field of the six simple "
+            "sections with an Example per field; a representable edit keeps the map in the encoder's domain; reading back "
+            "the rendered encoding commutes with every edit (the edited field shows exactly the edited value, every other "
+            "preserved field is unchanged; a mode edit modulo special style); edit lists by induction. Recorded: D24 "
+            "(break edited to (-0.0,+0.0)), D23 (file names that normalise to contain //). Tie to the code: `edit` "
+            "correspondence (decode, edit, encode) and an oracle with per-field value generators (colons, //, commas, "
+            "quotes, brackets, header-like and version-like text, non-ASCII, boundary numbers) on the real encode/decode.",
+            "§6 C03"),
+    "C04": ("Unbounded theorems (coq/Properties/C04.v, under fmt_ok): the token stream starts with the version line and "
+            "contains the eight headers exactly once in canonical order; no body line of any section is a header or "
+            "skipped; every body line of the six simple sections is accepted in every parser state and the section reads "
+            "back as its record (decode_image_inv: every decoded map is in that domain, outside D23); circle, spinner and "
+            "hold lines are accepted in every state and add exactly one object of the same kind, start and position; "
+            "every [TimingPoints] body line has the parsed shape. PARTIAL: slider lines and the decoder-image side "
+            "conditions of object/timing lines are stated, not mechanised (start+duration can leave the parse limit by "
+            "rounding: class D21 and relatives) - covered by correspondence and oracle. D2 was found here and repaired "
+            "(4262585). Oracle: every non-blank line of the real encoding is fed to the public parse function of its "
+            "section; headers, order, counts after re-decoding.",
+            "§6 C04"),
     "C07": ("Unbounded theorems (coq/Properties/C07.v), for ANY curve-distance function: the nine decoder types are nine "
             "instantiations of the framing driver with their state nesting and delegation chains written out as in the "
             "code; for each specialised decoder, whenever the full Beatmap decode completes its projection on the shared "
@@ -144,7 +175,9 @@ CLAIMS = {
             "specification written from the property text, for every state and line (key table, conversion, field); "
             "rejected or unknown records leave the state untouched; last valid occurrence wins (generic fold lemma); "
             "exact acceptance sets of the i32/u8/f32/f64 number parsers (grammar incl. dec2flt exponent saturation, "
-            "limits, NaN); clamp ranges for slider multiplier / tick rate; approach rate follows overall difficulty until "
+            "limits, NaN); the decimal -> binary conversion is the correctly rounded (nearest-even) value of the decimal "
+            "for binary64 and binary32, never NaN, zero keeps its sign, the magnitude shortcuts never change the result "
+            "(T11d, via Flocq's division and normalisation theorems); clamp ranges for slider multiplier / tick rate; approach rate follows overall difficulty until "
             "set; breaks have start <= end; background precedence; all tables and constants pinned against the generated "
             "ones. Deviations are refuted with witnesses and recorded (D1 first-colon, D10 bookmarks, D14 f32 limit). Tie "
             "to the code: bit-exact correspondence through the public parse_* functions over every key x value class x "
